@@ -20,7 +20,8 @@ EXN_KINDS = ["NetworkError", "ConRetransmitsExceeded", "LibraryShutdown", "Messa
 # python class name <-> Coq exn constructor
 EXN_COQ = {"NotObservable": "NotObservable", "ObservationCancelled": "ObservationCancelled", "NetworkError": "NetworkError",
            "ConRetransmitsExceeded": "ConRetransmitsExceeded", "LibraryShutdown": "LibraryShutdown", "MessageError": "MessageError",
-           "RuntimeError": "RuntimeError", "AssertionError": "AssertionError", "TypeError": "TypeError", "OSError": "(OtherError 1)"}
+           "RuntimeError": "RuntimeError", "AssertionError": "AssertionError", "TypeError": "TypeError", "OSError": "(OtherError 1)",
+           "ResourceChanged": "ResourceChanged", "UnexpectedBlock2": "UnexpectedBlock2", "NotImplemented": "NotImplementedError"}
 def kind_name(kind): return "MessageError" if kind == "MessageErrorClass" else kind
 
 _log = logging.getLogger("verif-c07"); _log.propagate = False; _log.addHandler(logging.NullHandler()); _log.setLevel(logging.CRITICAL + 1)
@@ -195,6 +196,98 @@ class StackRig(PipeRig):
         return res
 
 
+class BwRig:
+    """Context.request(handle_blockwise=True) with Observe on the real TokenManager / MessageManager and a fake transport:
+    BlockwiseRequest._run, _run_observation, _complete_by_requesting_block2 drive a lower Request (main token) and follow-up
+    Block2 requests (fresh tokens).  Every op is followed by running the loop until idle.
+    Block payloads: 16 bytes (szx 0) "%016d" % id for blocks with more=1, 8 bytes "%08d" % id for final ones / plain messages."""
+    MID0 = 100; TOKEN0 = 7
+    def __init__(self, reset_us, con, t0):
+        import aiocoap, aiocoap.protocol as proto
+        from aiocoap.numbers.constants import TransportTuning
+        from simloop import VLoop
+        import simnet
+        self.aiocoap = aiocoap; self.proto = proto
+        self.loop = VLoop(); proto.time = LoopClock(self.loop)
+        self.loop.advance(t0)
+        simnet.patch_random(None, self.MID0, self.TOKEN0)
+        self.ctx, self.tman, self.mman, self.mi = simnet.make_stack(self.loop)
+        self.ctx.log = _log; self.tman.log = _log; self.mman.log = _log
+        self.remote = simnet.Addr("srv")
+        class Tuning(TransportTuning):
+            OBSERVATION_RESET_TIME = Fraction(reset_us, SEC)
+            reliability = bool(con)
+        req = aiocoap.Message(code=aiocoap.GET, transport_tuning=Tuning())
+        req.opt.uri_path = ("x",); req.opt.observe = 0; req.remote = self.remote
+        self.out = []
+        with self.loop.enter():
+            self.request = self.ctx.request(req)          # handle_blockwise=True
+            obs = self.request.observation
+            obs.register_callback(lambda m: self.out.append(["cb", 0] + self.ident(m)), _suppress_deprecation=True)
+            obs.register_errback(lambda e: self.out.append(["eb", 0, exn_name(e)]), _suppress_deprecation=True)
+        self.loop.call_exception_handler = lambda c: self.out.append(["escaped", type(c.get("exception")).__name__]) if "handle" in c else None
+        self.loop.drain()
+        self.resp_seen = False
+        self.sub = None                   # (token, mid) of the latest follow-up request
+        reqs = self.requests_sent()
+        assert len(reqs) == 1, reqs
+        self.main_token, self.main_mid = reqs[0][0], reqs[0][1]
+    def ident(self, m):
+        p = m.payload
+        n_full = len(p) // 16; rest = len(p) - 16 * n_full
+        first = int(p[:16]) if n_full else int(p[:8])
+        return [first, n_full + (1 if rest else 0)]
+    def requests_sent(self):
+        a = self.aiocoap; res = []; self.replies = []
+        for _t, remote, raw in self.mi.take():
+            m = a.Message.decode(raw, remote)
+            if m.code.is_request(): res.append((m.token, m.mid, m.opt.block2.block_number if m.opt.block2 is not None else None, m.opt.observe))
+            else: self.replies.append(m)
+        return res
+    def poll_resp(self):
+        f = self.request.response
+        if self.resp_seen or not f.done(): return []
+        self.resp_seen = True
+        e = f.exception()
+        if e is not None: return [["resp_exn", exn_name(e)]]
+        return [["resp"] + self.ident(f.result())]
+    def bop(self, idx, o):
+        a = self.aiocoap; kind = o[0]; t = o[-1]
+        self.out = []
+        if t > self.loop.now_us(): self.loop.drain(); self.loop.advance_to(t)
+        mid = None
+        try:
+            if kind == "resp":
+                # ["resp", mt, observe, block2 (None | [num, more]), etag_ok, code, target ("main" | "sub" | "stale"), t]
+                _, mt, observe, b2, etag_ok, code, target, _t = o
+                more = bool(b2 and b2[1])
+                m = a.Message(code=a.numbers.codes.Code(code), payload=(b"%016d" if more else b"%08d") % idx)
+                if b2 is not None and len(b2) > 2 and b2[2] == "short": m.payload = b"%08d" % idx     # more=1 with a short payload
+                if observe is not None: m.opt.observe = observe
+                if b2 is not None: m.opt.block2 = (b2[0], more, 0)
+                m.opt.etag = b"e" if etag_ok else b"x"
+                tok, reqmid = (self.main_token, self.main_mid) if target == "main" else (self.sub if self.sub and target == "sub" else (b"\xee\xee", 0))
+                m.token = tok; m.mtype = getattr(a, mt); mid = m.mid = reqmid if mt == "ACK" else 1000 + idx
+                with self.loop.enter(): self.mman.dispatch_message(a.Message.decode(m.encode(), self.remote))
+            elif kind == "neterr":
+                with self.loop.enter(): self.mman.dispatch_error(OSError(113, "no route to host"), self.remote)
+            elif kind == "drain": pass
+        except Exception as e:
+            self.out.append(["escaped", type(e).__name__])
+        self.loop.drain()
+        outs = self.poll_resp() + self.out
+        for tok, rmid, num, obsopt in self.requests_sent():
+            if tok == self.main_token: continue        # retransmission of the original request
+            self.sub = (tok, rmid); outs.append(["req", num])
+        for m in self.replies:
+            if m.code == a.EMPTY and m.mid == mid: outs.append(["wire", m.mtype.name])
+            else: outs.append(["wire-other", m.mtype.name, str(m.code), m.mid])
+        return outs
+    def run(self, ops):
+        outs = [self.bop(i, o) for i, o in enumerate(ops)]
+        return {"ops": outs, "tokens_left": len(self.tman.outgoing_requests)}
+
+
 # ------------------------------------------------------------------------------------------------ RFC 7641 3.4, for the oracle
 def rfc_fresh(v1, t1, v2, t2, reset):
     return (v1 < v2 and v2 - v1 < 2 ** 23) or (v1 > v2 and v1 - v2 > 2 ** 23) or (t2 > t1 + reset)
@@ -204,8 +297,8 @@ class C07(fw.Property):
     id = "C07"
     coq_props = "Props/C07.v"
     gen_jobs = ["protocol_is_recent"]
-    model_imports = ["Verif.Lib.Py", "Verif.Gen.protocol_is_recent", "Verif.Model.C07", "Verif.Model.C07Stack"]
-    quick_budget = 320
+    model_imports = ["Verif.Lib.Py", "Verif.Gen.protocol_is_recent", "Verif.Model.C07", "Verif.Model.C07Stack", "Verif.Model.C07Iter", "Verif.Model.C07Blockwise"]
+    quick_budget = 240
     thorough_budget = 9000
     design_ref = "DESIGN.md section 12"
     technique = ("Coq proofs (induction over all event lists, order theory on 24-bit serial numbers) over an executable model of Request._run / "
@@ -218,12 +311,14 @@ class C07(fw.Property):
                   "(3) inside a half-window and within the reset time deliveries strictly increase and end with the maximum, for every permutation/duplication; "
                   "(4) at most one end signal, nothing after it, NotObservable / final response then ObservationCancelled / the transport's exception at every "
                   "position; (5) the end signal ends the pipe's interest, which releases the token, after which notifications get RST (CON) or silence (NON); "
-                  "(6) the async iterator yields in-order subsequences ending with the latest.")
+                  "(6) the async iterator yields in-order subsequences ending with the latest — per wake-up and, for a consumer that may be busy, over whole runs; "
+                  "(7) without observation.cancel() by the application no exception leaves the pipe (refuted without the hypothesis); "
+                  "(8) BlockwiseRequest's observation: silence after the end for every history, exact assembly, and _refuted witnesses for three open findings.")
     level_note = ("Trusted: Coq kernel + vm_compute; translator job c07 (expression shape checked, fail closed); the hand-written models, tied by correspondence "
-                  "only (sampled scripts); virtual loop and exact scripted clock (float rounding of time.time() not modelled). Not modelled: BlockwiseRequest._run_observation "
-                  "(block-wise notifications), re-entrant application callbacks, garbage collection of the request, message-layer retransmission timing beyond the "
-                  "fixed 62 s give-up of the request, transports other than the token/message manager pair (e.g. OSCORE's is_last logic). Iterator theorem is per wake-up "
-                  "of the consumer, not composed over the whole run. A transport failure BEFORE the first response reaches the response future as the exception and the "
+                  "only (sampled scripts); virtual loop and exact scripted clock (float rounding of time.time() not modelled). BlockwiseRequest._run_observation is modelled for NON requests without the Block1 phase "
+                  "(at-most-one end signal there only per run of the observation task: _partial). Not modelled: re-entrant application callbacks, garbage collection of the request, message-layer retransmission timing beyond the "
+                  "fixed 62 s give-up of the request, transports other than the token/message manager pair (e.g. OSCORE's is_last logic). The whole-run iterator theorems are about "
+                  "the iterator machine; their composition with Request/ClientObservation runs is by construction of deliver_callbacks and by the oracle, not a theorem. A transport failure BEFORE the first response reaches the response future as the exception and the "
                   "observation as NotObservable (carried as such in the theorems). An application that cancels the observation before a final first response makes "
                   "ClientObservation.error raise RuntimeError into the transport (modelled faithfully, outside the property's quantifier; see notes/C07.md).")
     rule = ("streams: fresh = rows (v1, v2, t1, t2, reset) from a boundary table (0, 1, 2^23-1, 2^23, 2^23+1, 2^24-2, 2^24-1 x differences 0,1,2,2^23-1,2^23,2^23+1,2^24-1 x gaps "
@@ -235,7 +330,10 @@ class C07(fw.Property):
             "position in 70 %, events continue after the end; stack = the same skeletons as CON/NON/ACK datagrams (piggy-backed, separate, un-ACKed request, RST, ICMP error, "
             "wrong token, other remote, request give-up after 62 s) through the real Context/TokenManager/MessageManager with a fake transport under the virtual loop, wire replies "
             "(empty ACK / RST) observed. Non-trivial = observer 0 got >= 1 notification and (some arrival was dropped or an end signal was given) [pipe]; >= 1 notification, a wire "
-            "reply and (an RST or an end signal) [stack]; rows with both outcomes [fresh]; distinct by full input.")
+            "reply and (an RST or an end signal) [stack]; rows with both outcomes [fresh]; bw = Context.request(handle_blockwise=True) with Observe: responses on the observation's token "
+            "(Observe or not, Block2 none / 0,more / 0,last / later block) and on the latest follow-up's token (next block, skipped block, other ETag, short payload, not block-wise, unanswered, "
+            "transport error) interleaved with further notifications, the final response and errors while a completion is under way; non-trivial [bw] = a body of >= 2 blocks was handed over and "
+            "the observation ended; distinct by full input.")
     trusted_base = ["translate/jobs/c07.py + translate/py2v.py expression translator (validated by the `fresh` stream on every run)",
                     "hand-written Model/C07.v (validated by the `pipe` stream)",
                     "harness/simloop.py virtual loop (FIFO ready queue); scripted exact clock bound to aiocoap.protocol.time"]
@@ -364,6 +462,76 @@ class C07(fw.Property):
         ops.append(["app", ["drain"], t])
         return {"has_obs": has_obs, "reset": reset, "con": con, "t0": ops[0][2], "ops": ops}
 
+    def gen_bw(self, rng, adversarial):
+        """BlockwiseRequest with Observe: notifications whose Block2 needs completing by follow-up requests, other
+        notifications / the final response / errors arriving while a completion is under way"""
+        reset = DEFAULT_RESET if rng.random() < 0.9 else rng.choice([0, SEC])
+        gaps = [0, 1000, SEC, 5 * SEC, 60 * SEC, DEFAULT_RESET, DEFAULT_RESET + 1] if reset == DEFAULT_RESET else [0, 1, reset, reset + 1]
+        v0 = rng.choice(self.V_BOUND) if rng.random() < 0.5 else rng.randrange(W)
+        t = t0 = rng.choice([0, 5 * SEC])
+        vals = self.gen_values(rng, v0, False)
+        ops = []
+        def mt(): return rng.choice(["CON", "NON"])
+        def chain(first_ok=False):
+            """the server's answers to the follow-up requests for a body whose block 0 said more=1"""
+            nonlocal t
+            out = []; n = 1; r = rng.random()
+            if r < 0.08 and not first_ok: return out                      # follow-up never answered
+            for _ in range(rng.choice([0, 0, 0, 1, 2])):
+                t += rng.choice([0, 1000]); out.append(["resp", "NON", None, [n, 1], 1, 69, "sub", t]); n += 1
+            t += rng.choice([0, 1000, SEC])
+            f = rng.random()
+            if first_ok or f < 0.72: out.append(["resp", mt(), None, [n, 0], 1, 69, "sub", t])
+            elif f < 0.80: out.append(["resp", "NON", None, [n, 0], 0, 69, "sub", t])            # ETag differs: ResourceChanged
+            elif f < 0.86: out.append(["resp", "NON", None, [n + 1, 0], 1, 69, "sub", t])        # a block was skipped
+            elif f < 0.91: out.append(["resp", "NON", None, [n, 1, "short"], 1, 69, "sub", t])   # more=1 with a short payload
+            elif f < 0.96: out.append(["resp", "NON", None, None, 1, rng.choice([69, 132]), "sub", t])   # not block-wise at all
+            else: out.append(["neterr", t])
+            return out
+        def interleave(ch, extra):
+            """other traffic arrives while the completion is under way"""
+            for e in extra: ch.insert(rng.randrange(len(ch) + 1), e)
+            return ch
+        # first response
+        first_obs = v0 if rng.random() < 0.9 else None
+        r = rng.random()
+        b2 = None if r < 0.6 else ([0, 1] if r < 0.95 or first_obs is None else rng.choice([[1, 0], [1, 1], [0, 0]]))
+        t += 1000
+        if adversarial and rng.random() < 0.1: ops.append(["neterr", t])
+        ops.append(["resp", "NON", first_obs, b2, 1, 69 if first_obs is not None or rng.random() < 0.5 else 132, "main", t])
+        pend = chain(first_ok=(first_obs is None)) if b2 == [0, 1] else []
+        term_at = rng.randrange(len(vals) + 1) if rng.random() < 0.6 else None
+        events = []
+        for i, v in enumerate(vals + [None]):
+            if term_at == i:
+                events.append("TERM")
+            if v is not None: events.append(v)
+        for e in events:
+            # traffic of the previous completion is spread around this arrival
+            if pend and rng.random() < 0.5:
+                k = rng.randrange(len(pend) + 1); ops.extend(pend[:k]); pend = pend[k:]
+            t = max(t, max((o[-1] for o in ops), default=t)) + rng.choice(gaps)
+            if e == "TERM":
+                r = rng.random()
+                if r < 0.7: ops.append(["resp", mt(), None, ([0, 1] if rng.random() < 0.15 else None), 1, rng.choice([69, 132, 163]), "main", t]); nb = ops[-1][3]
+                else: ops.append(["neterr", t]); nb = None
+            else:
+                r = rng.random()
+                nb = None if r < 0.6 else ([0, 1] if r < 0.93 else rng.choice([[0, 0], [1, 0], [2, 1]]))
+                ops.append(["resp", mt(), e, nb, 1, 69, "main", t])
+            ops.extend(pend); pend = []
+            if nb == [0, 1]: pend = chain()
+            if rng.random() < 0.2: ops.append(["drain", t])
+        ops.extend(pend)
+        if rng.random() < 0.3:
+            t = max(o[-1] for o in ops) + 1000; ops.append(["resp", mt(), None, [1, 0], 1, 69, "sub", t])     # a late / stray final block
+        # time must not go backwards
+        tt = t0
+        for o in ops:
+            tt = max(tt, o[-1]); o[-1] = tt
+        ops.append(["drain", tt])
+        return {"reset": reset, "t0": t0, "ops": ops}
+
     def fresh_table(self):
         """boundary table for the translated expression: (v1, v2, dt) around 0, 2^23, 2^24 and the reset time"""
         out = []
@@ -395,8 +563,9 @@ class C07(fw.Property):
         for i in range(0, len(rows), 40):
             yield "fresh", {"rows": rows[i:i + 40]}
         for j in range(n):
-            if j % 2 == 0: yield "pipe", self.gen_pipe(rng, adversarial=(j % 10 == 8))
-            else: yield "stack", self.gen_stack(rng, adversarial=(j % 10 == 9))
+            if j % 3 == 0: yield "pipe", self.gen_pipe(rng, adversarial=(j % 15 == 12))
+            elif j % 3 == 1: yield "stack", self.gen_stack(rng, adversarial=(j % 15 == 13))
+            else: yield "bw", self.gen_bw(rng, adversarial=(j % 15 == 14))
         if tier == "thorough":
             # exhaustive small scope (validation of the tie, not a proof): every sequence of length <= 4 over three consecutive
             # serial numbers (all permutations and duplications), across 0 / 2^23 / wrap-around, gaps 1 s or 129 s,
@@ -425,6 +594,8 @@ class C07(fw.Property):
                 o = rig.op(2, ["msg", v2, 0, t2])
                 res.append(o == [["cb", 0, 2]])
             return res
+        if stream == "bw":
+            return BwRig(inp["reset"], False, inp["t0"]).run(inp["ops"])
         if stream == "stack":
             rig = StackRig(inp["has_obs"], inp["reset"], inp["con"], inp["t0"])
             outs = [rig.sop(i, o) for i, o in enumerate(inp["ops"])]
@@ -446,10 +617,33 @@ class C07(fw.Property):
     def model(self, stream, inp):
         if stream == "fresh":
             return glist(["is_recent %s %s %s %s %s" % tuple(gz(x) for x in row) for row in inp["rows"]])
+        if stream == "bw":
+            return "brun (bw0 %s %s) %s" % (gz(inp["reset"]), gz(inp["t0"]), glist([self.g_bop(i, o) for i, o in enumerate(inp["ops"])]))
         if stream == "stack":
             return "srun (stack0 %s %s %s %s) %s" % (gbool(inp["has_obs"]), gz(inp["reset"]), gbool(inp["con"]), gz(inp["t0"]),
                                                     glist([self.g_sop(i, o) for i, o in enumerate(inp["ops"])]))
         return "run (sys0 %s %s) %s" % (gbool(inp["has_obs"]), gz(inp["reset"]), glist([self.g_op(i, o) for i, o in enumerate(inp["ops"])]))
+    def g_blk(self, b2):
+        if b2 is None: return "BNone"
+        return "(BBlock %s %s %s)" % (gz(b2[0]), gbool(b2[1]), gbool(not (len(b2) > 2 and b2[2] == "short")))
+    def g_bop(self, idx, o):
+        k = o[0]
+        if k == "resp":
+            _, mt, observe, b2, etag_ok, code, target, t = o
+            if target == "main": return "BMain %s %s %s %s %s" % (gz(t), mt, gz(idx), gopt(observe, gz), self.g_blk(b2))
+            return "BSub %s %s %s %s %s" % (gz(t), mt, gz(idx), self.g_blk(b2), gbool(etag_ok))
+        if k == "neterr": return "BNetError %s" % gz(o[1])
+        if k == "drain": return "BDrain %s" % gz(o[1])
+        raise ValueError(k)
+    def d_bout(self, x):
+        c, a = x["c"], x["a"]
+        if c == "BResp": return ["resp", a[0], a[1]]
+        if c == "BRespExn": return ["resp_exn", self.d_exn2(a[0])]
+        if c == "BCb": return ["cb", 0, a[0], a[1]]
+        if c == "BEb": return ["eb", 0, self.d_exn2(a[0])]
+        if c == "BReq": return ["req", a[0]]
+        if c == "BWire": return ["wire", a[0]]
+        raise ValueError(x)
     def g_sop(self, idx, o):
         k = o[0]
         if k == "resp": return "SResponse %s %s %s %s %s %s" % (gz(o[6]), o[1], gz(idx), gopt(o[2], gz), gbool(o[3] == 1), gbool(o[4]))
@@ -461,6 +655,9 @@ class C07(fw.Property):
         if isinstance(x, str): return x
         if x["c"] == "OtherError": return "OSError"
         return x["c"]
+    def d_exn2(self, x):
+        n = self.d_exn(x)
+        return "NotImplemented" if n == "NotImplementedError" else n
     def d_out(self, x):
         if x == "OEnd": return ["end"]
         if x == "ORespCancelled": return ["resp_cancelled"]
@@ -477,6 +674,9 @@ class C07(fw.Property):
     def decode(self, stream, inp, p):
         p = fw.plain(p)
         if stream == "fresh": return p
+        if stream == "bw":
+            outs, tok = p
+            return {"ops": [[self.d_bout(x) for x in per_op] for per_op in outs], "tokens_left": tok}
         if stream == "stack":
             outs, tok = p
             def so(x):
@@ -497,7 +697,82 @@ class C07(fw.Property):
                             "Observe %d at %d us after accepted %d at %d us (reset %d us): delivered=%s, RFC 7641 3.4 says fresh=%s" % (v2, t2, v1, t1, reset, got, want))
             return None
         if stream == "stack": return self.oracle_stack(inp, res)
+        if stream == "bw": return self.oracle_bw(inp, res)
         return self.oracle_pipe(inp, res)
+
+    def oracle_bw(self, inp, res):
+        """the property on the OUTER observation of a BlockwiseRequest (observer registered from the start)"""
+        if "ops" not in res: return ("C07:crash:" + str(res.get("where")), "implementation raised %s: %s" % (res.get("harness_exception"), res.get("text")))
+        ops = inp["ops"]; outs_all = res["ops"]; reset = inp["reset"]
+        arrived = {}          # id -> op of every response datagram so far
+        first_seen = False; v1 = t1 = None; accepted = set()     # RFC 7641 3.4 filter over the main-token arrivals
+        lower_live = True     # the main-token exchange can still produce notifications
+        ended_at = None; end_kind = None; last_cb = -1
+        final_pending = None  # a final response arrived while the outer observation was live: it must be handed over before the end
+        first_fetch = False; failed_first_fetch = False; late_ack = 0; any_more = False
+        for i, (o, outs) in enumerate(zip(ops, outs_all)):
+            esc = [x for x in outs if x[0] == "escaped"]
+            if esc: return ("C07:exception-escaped", "%s escaped at op %d %r" % (esc[0][1], i, o))
+            cbs = [x for x in outs if x[0] == "cb"]; ebs = [x[2] for x in outs if x[0] == "eb"]
+            resp = [x for x in outs if x[0] in ("resp", "resp_exn")]; wire = [x for x in outs if x[0].startswith("wire")]
+            if o[0] == "resp":
+                arrived[i] = o
+                if o[3] is not None and o[3][1]: any_more = True
+                if o[6] == "main":
+                    if ended_at is not None and o[1] == "CON" and wire == [["wire", "ACK"]]:
+                        late_ack += 1
+                        if failed_first_fetch:
+                            return ("C07:bw-token-leaked-after-failed-first-fetch", "the first response's Block2 completion failed at op %d (observation ended with %s) but notification %d on the observation's token is still acknowledged" % (ended_at, end_kind, i))
+                        if late_ack == 1 and end_kind not in ("ObservationCancelled", "NotObservable", "NetworkError"):
+                            return ("C07:bw-token-released-late", "observation ended at op %d with %s, yet the next notification (op %d) on its token is acknowledged instead of rejected" % (ended_at, end_kind, i))
+                        return ("C07:late-notification-not-rejected", "notification %d acknowledged although the observation ended at op %d" % (i, ended_at))
+                    if lower_live:
+                        if not first_seen:
+                            first_seen = True
+                            if o[2] is None: lower_live = False
+                            else: v1, t1 = o[2], o[7]
+                            if o[3] is not None and o[3][1]: first_fetch = True
+                        elif o[2] is None:
+                            lower_live = False
+                            if ended_at is None: final_pending = i
+                        elif rfc_fresh(v1, t1, o[2], o[7], reset):
+                            accepted.add(i); v1, t1 = o[2], o[7]
+            if o[0] == "neterr": lower_live = False
+            if resp and resp[0][0] == "resp": first_fetch = False
+            for x in cbs:
+                _, _, ident, n = x
+                if ended_at is not None: return ("C07:callback-after-end", "outer observation got message %d after its end signal" % ident)
+                if ident not in arrived: return ("C07:delivered-not-arrived", "outer observation got unknown message %r" % ident)
+                a = arrived[ident]
+                if a[6] == "main":
+                    if ident <= last_cb: return ("C07:delivered-twice-or-reordered", "message %d delivered after %d" % (ident, last_cb))
+                    last_cb = ident
+                    if a[2] is not None and ident not in accepted: return ("C07:stale-delivered", "notification %d (Observe %d) was not fresh on arrival but reached the outer observation" % (ident, a[2]))
+                    more = a[3] is not None and a[3][1]
+                    if (n == 1) == more: return ("C07:bw-wrong-assembly", "message %d (Block2 %r) handed over as %d block(s)" % (ident, a[3], n))
+                    if final_pending == ident: final_pending = "delivered"
+                elif n != 1 or a[3] is not None: return ("C07:bw-wrong-assembly", "follow-up response %d handed over as a notification of %d blocks" % (ident, n))
+            if len(ebs) > 1 or (ebs and ended_at is not None): return ("C07:errback-twice", "outer observation got a second end signal %r at op %d" % (ebs, i))
+            if ebs:
+                ended_at = i; end_kind = ebs[0]
+                if first_fetch and resp and resp[0][0] == "resp_exn" and end_kind not in ("NetworkError",): failed_first_fetch = True
+                if end_kind == "ObservationCancelled" and isinstance(final_pending, int):
+                    return ("C07:bw-final-response-lost", "final response %d (no Observe option) arrived at op %d while the outer observation was live, but the observation ended at op %d with ObservationCancelled without handing it over" % (final_pending, final_pending, i))
+                if o[0] == "neterr" and end_kind != "NetworkError":
+                    return ("C07:network-error-not-signalled", "transport error at op %d: outer errback got %r" % (i, end_kind))
+        n_eb = sum(1 for outs in outs_all for x in outs if x[0] == "eb")
+        if not any_more:
+            # no Block2 completion anywhere: the outer observation must behave exactly like the plain one
+            if accepted and ended_at is None and max(accepted) != last_cb:
+                return ("C07:fresh-dropped", "freshest notification %d never reached the outer observation (last delivered %d)" % (max(accepted), last_cb))
+            if not lower_live and first_seen and n_eb != 1: return ("C07:end-not-signalled", "the exchange ended but the outer observation got %d end signals" % n_eb)
+            if isinstance(final_pending, int): return ("C07:final-response-not-delivered", "final response %d never handed over" % final_pending)
+        if ended_at is not None and res["tokens_left"] != 0:
+            if failed_first_fetch: return ("C07:bw-token-leaked-after-failed-first-fetch", "observation ended at op %d (%s) but %d token(s) stay registered" % (ended_at, end_kind, res["tokens_left"]))
+            if end_kind not in ("ObservationCancelled", "NotObservable", "NetworkError"):
+                return ("C07:bw-token-released-late", "observation ended at op %d with %s but its token is still registered at the end of the run" % (ended_at, end_kind))
+            return ("C07:token-leaked", "observation ended at op %d (%s) but %d token(s) stay registered" % (ended_at, end_kind, res["tokens_left"]))
+        return None
 
     def oracle_pipe(self, inp, res):
         ops = inp["ops"]; reset = inp["reset"]
@@ -743,6 +1018,11 @@ class C07(fw.Property):
     def nontrivial(self, stream, inp, res):
         if stream == "fresh":
             return fw.jdump(inp) if isinstance(res, list) and any(res) and not all(res) else None
+        if stream == "bw":
+            if not isinstance(res, dict) or "ops" not in res: return None
+            flat = [x for outs in res["ops"] for x in outs]
+            if any(x[0] == "cb" and x[3] >= 2 for x in flat) and any(x[0] == "eb" for x in flat): return fw.jdump(inp)
+            return None
         if stream == "stack":
             if not isinstance(res, dict) or "ops" not in res: return None
             flat = [x for outs in res["ops"] for x in outs]
